@@ -234,3 +234,106 @@ Proof.
     split; [replace (here + (n + fold_right Z.add 0 ns)) with (here + (bsz (cur_cfg s) (d_W (v_dec s)) / 4 + bsz (cur_cfg s) w / 4) + fold_right Z.add 0 ns) by lia; exact A|].
     split; [lia|constructor; assumption].
 Qed.
+
+(* ------------------------------------------------------------------ *)
+(* the end of a link                                                    *)
+(* ------------------------------------------------------------------ *)
+(* the last block of a link: its granule position says where the link ends; what lies beyond is cut off *)
+Lemma blockin_eos c s b :
+  0 <= bs0 c -> 0 <= bs1 c -> hs c = 0 ->
+  k_pcm b = true -> d_ret s = d_cur s -> 0 <= d_ret s -> k_eof b = true ->
+  d_seq s <> -1 -> d_seq s + 1 = k_seq b -> d_gran s <> -1 ->
+  let stp := bsz c (d_W s) / 4 + bsz c (k_W b) / 4 in
+  d_gran s <= k_gran b <= d_gran s + stp -> k_gran b <> -1 ->
+  exists s', dec_blockin c s b = (0, s') /\ dec_pcmout s' = k_gran b - d_gran s /\
+             d_ret s' = d_cur s' - dec_pcmout s' /\ 0 <= d_ret s' /\ d_gran s' = k_gran b.
+Proof.
+  intros Hb0 Hb1 Hhs Hp Hr Hr0 He Hs1 Hs2 Hg0 stp Hrange Hk.
+  unfold dec_blockin. rewrite Hr.
+  destruct ((d_cur s >? d_cur s) && negb (d_cur s =? -1)) eqn:E0; [lia|].
+  unfold dec_pcmpart. rewrite Hp, Hr.
+  destruct (d_cur s =? -1) eqn:E1; [lia|].
+  fold stp.
+  destruct ((d_seq s =? -1) || negb (d_seq s + 1 =? k_seq b)) eqn:El; [lia|].
+  set (prevC := if d_centerW s =? 0 then Z.shiftr (bs1 c) (hs c + 1) else 0).
+  assert (0 <= prevC) as HpC by (unfold prevC; destruct (d_centerW s =? 0); [apply Z.shiftr_nonneg; exact Hb1|lia]).
+  assert (0 <= stp) as Hst.
+  { unfold stp. assert (0 <= bsz c (d_W s) / 4 /\ 0 <= bsz c (k_W b) / 4) by (unfold bsz; destruct (d_W s), (k_W b); split; apply Z.div_pos; lia). lia. }
+  rewrite Hhs, Z.shiftr_0_r.
+  set (count1 := if d_count s =? -1 then 0 else d_count s + stp).
+  assert (dec_granule 0 (d_gran s) count1 stp b prevC (prevC + stp) = (k_gran b, prevC, prevC + (k_gran b - d_gran s))) as Hdg.
+  { unfold dec_granule. destruct (d_gran s =? -1) eqn:Eg; [lia|].
+    destruct (negb (k_gran b =? -1) && negb (d_gran s + stp =? k_gran b)) eqn:Ek.
+    - unfold trim_tracked. rewrite He. destruct ((d_gran s + stp >? k_gran b) && true) eqn:Egt; [|lia].
+      rewrite !Z.shiftl_0_r, !Z.shiftr_0_r.
+      replace (prevC + stp - prevC) with stp by lia.
+      destruct (d_gran s + stp - k_gran b >? stp) eqn:E2; [lia|].
+      destruct (d_gran s + stp - k_gran b <? 0) eqn:E3; [lia|].
+      f_equal. lia.
+    - assert (d_gran s + stp = k_gran b) by lia. f_equal; [f_equal; lia|lia]. }
+  rewrite Hdg. eexists. split; [reflexivity|].
+  unfold dec_pcmout. cbn [d_ret d_cur d_gran].
+  destruct ((prevC >? -1) && (prevC <? prevC + (k_gran b - d_gran s))) eqn:E2; repeat split; lia.
+Qed.
+
+(* the end-of-stream packet of a link, fed to a synchronised handle whose decoder has seen a granule position:
+   exactly the samples up to the link's end come out, and the position reported afterwards is the link's end *)
+Lemma feed_drain_eos s here p w L :
+  SyncInv s here -> d_gran (v_dec s) = li_init (cur_link s) + here ->
+  pk_eos p = true -> pk_gran p = li_init (cur_link s) + L ->
+  let stp := bsz (cur_cfg s) (d_W (v_dec s)) / 4 + bsz (cur_cfg s) w / 4 in
+  here <= L <= here + stp ->
+  let '(n, s2) := drain (feed s p w) in
+  n = L - here /\ v_pcm s2 = base_of s (v_link s) + L /\ dec_pcmout (v_dec s2) = 0 /\ v_link s2 = v_link s.
+Proof.
+  intros (Hhs & Hb0 & Hb1 & Hi & Hr & Hr0 & Hs1 & Hs2 & Hpcm & Hh & Ht) Hgr He Hg stp HL.
+  set (c := cur_cfg s) in *. set (d := v_dec s) in *. set (l := cur_link s) in *.
+  assert (hs c = 0) as Hhc by (unfold c, cur_cfg, cfg_of; cbn; exact Hhs).
+  set (b := {| k_W := w; k_gran := pk_gran p; k_seq := v_pno s; k_eof := pk_eos p; k_pcm := true |}).
+  destruct (blockin_eos c d b) as (d' & Eb & Hout & Hret & Hret0 & Hgrn).
+  - unfold c, cur_cfg, cfg_of; cbn; exact Hb0.
+  - unfold c, cur_cfg, cfg_of; cbn; exact Hb1.
+  - exact Hhc.
+  - reflexivity.
+  - exact Hr.
+  - exact Hr0.
+  - exact He.
+  - lia.
+  - cbn. lia.
+  - lia.
+  - unfold b. cbn [k_gran k_W]. fold stp. lia.
+  - unfold b. cbn [k_gran]. lia.
+  - unfold b in Hout, Hgrn. cbn [k_gran] in Hout, Hgrn.
+    unfold drain, feed, process_audio. fold c d b. rewrite Eb.
+    rewrite He. rewrite andb_false_r.
+    cbn [v_dec v_pcm set_q set_dec].
+    unfold dec_read. rewrite Hout.
+    destruct (negb (pk_gran p - d_gran d =? 0) && (d_ret d' + (pk_gran p - d_gran d) >? d_cur d')) eqn:Er; [lia|].
+    split; [lia|]. split; [cbn; lia|]. split; [|reflexivity].
+    unfold dec_pcmout. cbn [v_dec set_pcm set_dec d_ret d_cur].
+    destruct ((d_ret d' + (pk_gran p - d_gran d) >? -1) && (d_ret d' + (pk_gran p - d_gran d) <? d_cur d')) eqn:E2; lia.
+Qed.
+
+(* reading an intact link to its end: the intact packets, then the end-of-stream packet *)
+Theorem link_read_to_end : forall ps s here p w L,
+  SyncInv s here -> intact_seq s here ps ->
+  let '(s1, ns) := run_link s ps in
+  let here1 := here + fold_right Z.add 0 ns in
+  d_gran (v_dec s1) <> -1 ->
+  pk_eos p = true -> pk_gran p = li_init (cur_link s1) + L ->
+  here1 <= L <= here1 + (bsz (cur_cfg s1) (d_W (v_dec s1)) / 4 + bsz (cur_cfg s1) w / 4) ->
+  let '(n, s2) := drain (feed s1 p w) in
+  fold_right Z.add 0 ns + n = L - here /\ v_pcm s2 = base_of s (v_link s) + L /\ dec_pcmout (v_dec s2) = 0.
+Proof.
+  intros ps s here p w L Hinv Hseq.
+  pose proof (linear_read_sync ps s here Hinv Hseq) as Hlin.
+  destruct (run_link s ps) as [s1 ns] eqn:Er. cbv zeta in *. destruct Hlin as (Hinv1 & Hpcm1 & Hpos).
+  intros Hgr He Hg HL.
+  assert (d_gran (v_dec s1) = li_init (cur_link s1) + (here + fold_right Z.add 0 ns)) as Hgr1.
+  { destruct Hinv1 as (_ & _ & _ & _ & _ & _ & _ & _ & _ & _ & [[A _]|A]); [congruence|exact A]. }
+  pose proof (feed_drain_eos s1 _ p w L Hinv1 Hgr1 He Hg HL) as Hfin.
+  destruct (drain (feed s1 p w)) as [n s2]. destruct Hfin as (Hn & Hp2 & Ho & _).
+  split; [lia|]. split; [|exact Ho].
+  destruct Hinv as (_ & _ & _ & _ & _ & _ & _ & _ & Hp0 & _). destruct Hinv1 as (_ & _ & _ & _ & _ & _ & _ & _ & Hp1 & _).
+  lia.
+Qed.
